@@ -1,9 +1,10 @@
 (* GENERATED from /repo on every run by translate/c17_facts.py -- do not edit *)
-From Coq Require Import ZArith List.
-From SF Require Import C17.Emul C17.EmulCheck.
+From Coq Require Import ZArith List String.
+From SF Require Import C17.Emul C17.Emul2 C17.EmulCheck.
 Import ListNotations.
 Open Scope Z_scope.
 Definition c17_slice : slice_cfg := mkSlice ((1)%Z, (0)%Z, (0)%Z) ((1)%Z, (1)%Z, (-1)%Z).
+Definition c17_slice_rebase : slice_rebase := (Rebase (1) (1) (1) (1)).
 Definition c17_element_at : shift_cfg := mkShift CondNever (0) (1).
 Definition c17_try_element_at : shift_cfg := mkShift CondNever (0) (1).
 Definition c17_getitem : shift_cfg := mkShift CondIsLit (1) (0).
@@ -11,11 +12,14 @@ Definition c17_array_min_idx : Z := (1).
 Definition c17_array_max_idx : Z := (-1).
 Definition c17_pos : pos_cfg := mkPos (Some (0)) true.
 Definition c17_fact : fact_cfg := mkFact true TyInteger.
+Definition c17_fact_guard : option (Z * Z) := (Some ((0)%Z, (20)%Z)).
 Definition c17_rint : rint_cfg := mkRint RoundHalfEven (0).
 Definition c17_dow : Z := (1).
 Definition c17_overlay : overlay_cfg := mkOverlay (1) ((1)%Z, (0)%Z, (-1)%Z) ((1)%Z, (1)%Z, (0)%Z) true.
+Definition c17_overlay_glue : glue := GluePipes.
 Definition c17_overlap : overlap_cfg := mkOverlap CGt (0).
 Definition c17_union : union_cfg := mkUnion true true true.
+Definition c17_union_guard : bool := true.
 Definition c17_remove : cmpop := CNe.
 Definition c17_nanvl : nanvl_cfg := mkNanvl true true true.
 Definition c17_seq_default : seq_default := (SeqBySign CLe (1) (-1)).
@@ -23,5 +27,11 @@ Definition c17_date_add : dshift_cfg := mkDshift CLt (0) (-1) true.
 Definition c17_date_sub : dshift_cfg := mkDshift CLt (0) (-1) true.
 Definition c17_lev : lev_cfg := mkLev CLe (-1) (Some CGt).
 Definition c17_unix_millis : millis_cfg := MillisEpochMs.
-Definition c17_facts : facts := mkFacts c17_slice c17_element_at c17_try_element_at c17_getitem c17_array_min_idx c17_array_max_idx c17_pos c17_fact c17_rint c17_dow c17_overlay c17_overlap c17_union c17_remove c17_nanvl c17_seq_default c17_date_add c17_date_sub c17_lev c17_unix_millis.
+Definition c17_append_guard : bool := true.
+Definition c17_left_floor : option Z := (Some (0)).
+Definition c17_right_floor : option Z := (Some (0)).
+Definition c17_substr_remap : option (Z * Z) := (Some ((0)%Z, (1)%Z)).
+Definition c17_concat_glue : glue := GluePipes.
+Definition c17_trunc_units : list (string * string) := [("dd", "day"); ("mm", "month"); ("mon", "month"); ("yy", "year"); ("yyyy", "year")]%string.
+Definition c17_facts : facts := mkFacts c17_slice c17_element_at c17_try_element_at c17_getitem c17_array_min_idx c17_array_max_idx c17_pos c17_fact c17_rint c17_dow c17_overlay c17_overlap c17_union c17_remove c17_nanvl c17_seq_default c17_date_add c17_date_sub c17_lev c17_unix_millis c17_slice_rebase c17_fact_guard c17_union_guard c17_overlay_glue c17_concat_glue c17_append_guard c17_left_floor c17_right_floor c17_substr_remap.
 
